@@ -557,6 +557,8 @@ def lfr_cadence(ctx):
                         ok = bool(leaves)
                         for l in leaves:
                             sub = l.single_atom()
+                            if sub is not None and sub[0] == "dict" and _only_false(l):
+                                continue  # the freshly created all-False entry of this index: any() of it is False
                             if not (sub is not None and sub[0] == "sub" and T.same(sub[2], ssr) and _rooted(sub[1], attr)):
                                 ok = False
             ctx.ob("GRD-warmup", "LinearFourRates.update", "store %r is under any(%s[ssr].values())" % (v, attr), ok, "", _site_pc_ev(tr, ev))
